@@ -6,6 +6,7 @@ package main
 
 import (
 	"bufio"
+	"bytes"
 	"encoding/json"
 	"fmt"
 	"io"
@@ -244,6 +245,7 @@ func init() {
 				All     int   `json:"all"`
 				Mem     int64 `json:"mem"`
 			}
+			var customLogger io.Writer
 			runOnce := func(withLogger bool, observe bool) finalT {
 				for j := range s.WRAM {
 					s.WRAM[j] = byte(j * 13)
@@ -273,6 +275,9 @@ func init() {
 					}
 				} else {
 					s.Logger = nil
+				}
+				if customLogger != nil {
+					s.Logger = customLogger
 				}
 				steps, limit = 0, budget+3
 				logWrites, logLimit = 0, budget+3
@@ -337,6 +342,22 @@ func init() {
 			f2 := runOnce(!logging, false)
 			if hung {
 				break
+			}
+			if i%4 == 1 && !f1.Crashed && !f2.Crashed && !f1.Aborted {
+				// the trace TEXT must not depend on the kind of Logger: a plain buffer against a small bufio.Writer whose
+				// free space shrinks from line to line
+				var plain, viaBufio bytes.Buffer
+				customLogger = &plain
+				runOnce(true, false)
+				bw := bufio.NewWriterSize(&viaBufio, 94)
+				customLogger = bw
+				runOnce(true, false)
+				bw.Flush()
+				customLogger = nil
+				if hung {
+					break
+				}
+				emit(map[string]interface{}{"k": "textpair", "same": bytes.Equal(plain.Bytes(), viaBufio.Bytes()), "len": plain.Len(), "len2": viaBufio.Len()})
 			}
 			if !f1.Crashed || !f2.Crashed { // both crashing (unmapped access by the program itself) is outside the domain
 				wl, wo := f1, f2
